@@ -3,7 +3,7 @@ end-to-end correspondence (in-process and through the three CLIs) against the so
 import os, random, re, shutil, subprocess, sys
 import framework as fw
 import pepper, cbuild
-from props import c02, c17
+from props import c02, c12, c17
 
 ID = "C06"
 LEVEL = "proof"
@@ -88,7 +88,7 @@ def impl_case(case):
     import implrun
     out = {}
     for so in (False, True):
-        p = implrun.pipeline(case["files"], case["base"], args=case["args"], includes=case["includes"] or None, seed=case["seed"] + so, struct_orient=so)
+        p = implrun.pipeline(case["files"], case["base"], args=case["args"], includes=case["includes"] or None, seed=case["seed"] + so, struct_orient=so, fixed=case.get("fixed"))
         shutil.rmtree(p["dir"], ignore_errors=True)
         p.pop("dir", None); p.pop("pil", None)
         if "arrays" in p and p["arrays"].get("outcome") == "ok":
@@ -323,9 +323,42 @@ def run(tier, seed, build):
                     if double_star(c): break
                     c = c02.gen_case(rng)
                 neutralise(rng, c)
+        forced_sig = None
+        if i == 7:      # once per run: a system with a signal that ties at least two ports, fixed to a string that pins nothing
+            for _ in range(600):
+                c = c02.gen_case(rng)
+                try: d7, _ = pepper.expected_system_den(c["_gen"], c["_top"], c["args"], 0)
+                except (ValueError, KeyError, ZeroDivisionError, TypeError): d7 = None
+                multi = [e for e in (d7["equals"] if d7 else []) if e and e[0] and "-" not in e[0][0][0] and len(e) > 2 and len(e[0]) > 2]
+                if multi:
+                    e = rng.choice(multi); forced_sig = [["signal", e[0][0][0], "".join(rng.choice("NNNS") for _ in e[0])]]
+                    if c12.expected_fixed(d7, forced_sig)[0] is None: forced_sig = [["signal", e[0][0][0], "N" * len(e[0])]]
+                    break
         c["seed"] = rng.randrange(10**6)
+        c["fixed_entries"] = forced_sig or []
+        if i == 3 and "_prog" in c:      # once per run: a sequence on no strand, pinned completely by the fixed file
+            if not any(st[0] == "seq" and st[1] == "unusedq" for st in c["_prog"]["body"]):
+                c["_prog"]["body"].append(["seq", "unusedq", [["nuc", [[1, "S"], [2, "N"], [1, "W"]]]], None])
+                c["files"] = {"prog.comp": pepper.comp_text(rng, c["_prog"])}; c["entries"] = [["prog.comp", False, [], [c["_prog"]["decl"], c["_prog"]["body"]]]]
+            c["fixed_entries"] = [["sequence", "unusedq", rng.choice(["CAGA", "GTCT", "CCAA"])]]
+        elif i % 4 == 3 and not forced_sig:                 # every fourth case: a fixed-sequence file the specification accepts (sequences, strands, structures, signals)
+            try:
+                if "_prog" in c:
+                    den0 = pepper.den_src(c["_prog"], "", 0)
+                    if den0 is not None: den0["equals"] = []
+                else:
+                    den0, _ = pepper.expected_system_den(c["_gen"], c["_top"], c["args"], 0)
+            except (ValueError, KeyError, ZeroDivisionError, TypeError):
+                den0 = None
+            for _ in range(6):
+                if den0 is None: break
+                ents = [e for e in c12.gen_fixed(rng, den0) if "_Anon" not in e[1] and not e[1].startswith("nosuch")]
+                if ents and c12.expected_fixed(den0, ents)[0] is not None:
+                    c["fixed_entries"] = ents; break
+        if c["fixed_entries"]:
+            c["files"] = dict(c["files"]); c["files"]["fix.fixed"] = c12.fixed_text(rng, c["fixed_entries"]); c["fixed"] = "fix.fixed"
         cases.append(c)
-    impl = fw.run_impl("props.c06", "impl_case", [{k: v for k, v in c.items() if not k.startswith("_")} for c in cases], per_case_timeout=120)
+    impl = fw.run_impl("props.c06", "impl_case", [{k: v for k, v in c.items() if not k.startswith("_") and k != "fixed_entries"} for c in cases], per_case_timeout=120)
     # model: finish on the records of the real .mfe
     reqs = []; where = []
     for ci, (c, r) in enumerate(zip(cases, impl)):
@@ -335,17 +368,17 @@ def run(tier, seed, build):
                 if p.get("outcome") == "ok":
                     recs = c17.read_mfe(p["mfe"])
                     if recs is not None:
-                        reqs.append(["finish", [c["entries"], c["includes"], p["ctr0"], c["base"], c["args"], [], [[a, b] for a, b in recs]]]); where.append((ci, lay))
+                        reqs.append(["finish", [c["entries"], c["includes"], p["ctr0"], c["base"], c["args"], [list(e) for e in c["fixed_entries"]], [[a, b] for a, b in recs]]]); where.append((ci, lay))
     mres = dict(zip(where, fw.run_model(reqs)))
     failures = []; nontrivial = set()
-    dist = {"pipelines": 0, "completed": 0, "no_arrays": 0, "components": 0, "systems": 0, "cli_runs": 0, "cli_ok": 0, "model_compared": 0}
+    dist = {"with_fixed_file": sum(1 for c in cases if c["fixed_entries"]), "pipelines": 0, "completed": 0, "no_arrays": 0, "components": 0, "systems": 0, "cli_runs": 0, "cli_ok": 0, "model_compared": 0}
     for ci, (c, r) in enumerate(zip(cases, impl)):
         if not isinstance(r, dict) or "strand" not in r:
             failures.append({"kind": "disagreement", "key": "impl-run", "summary": "runner failed: %r" % (str(r)[:300],), "replay": {"files": c["files"]}}); continue
         dist["components" if "_prog" in c else "systems"] += 1
         for lay in ("strand", "struct"):
             p = r[lay]; dist["pipelines"] += 1
-            rep = {"files": c["files"], "layout": lay, "argv": "pepper-compiler %s; pepper-design-spurious %s (or Convert + any assignment satisfying the arrays); pepper-finish %s" % (c["base"], "--struct" if lay == "struct" else "", c["base"])}
+            rep = {"files": c["files"], "layout": lay, "argv": "pepper-compiler %s%s; pepper-design-spurious %s (or Convert + any assignment satisfying the arrays); pepper-finish %s" % (c["base"], " --fixed fix.fixed" if c["fixed_entries"] else "", "--struct" if lay == "struct" else "", c["base"])}
             if p["stage"] in ("compile", "arrays") and p["outcome"] != "ok":
                 dist["no_arrays"] += 1; continue
             if p.get("nts_ok"):
